@@ -812,6 +812,7 @@ pub fn run(_args: &[String]) -> i32 {
 			max_depth: if thorough { 3 } else { 2 },
 			wall: Duration::from_secs(if thorough { 900 } else { 25 }),
 			max_states: 100_000,
+			min_depth: 2,
 		};
 		let tag = format!("base{}", base);
 		let e = explore(&m, &format!("c07-{}", tag), &caps);
